@@ -72,9 +72,9 @@ func genHistory(rng *Rng, starts []int, maxSteps int, faults bool) *History {
 				switch f := rng.Intn(100); {
 				case f < 45:
 				case f < 65:
-					st.Plan = &RoundPlan{Faults: []FaultSpec{{Idx: rng.Intn(8), Applied: rng.Bool()}}}
+					st.Plan = &RoundPlan{Faults: []FaultSpec{{Idx: rng.Intn(8), Applied: rng.Bool(), Kind: pickOne(rng, faultKinds)}}}
 				case f < 72:
-					st.Plan = &RoundPlan{Faults: []FaultSpec{{Idx: rng.Intn(5), Applied: rng.Bool()}, {Idx: rng.Intn(9), Applied: rng.Bool()}}}
+					st.Plan = &RoundPlan{Faults: []FaultSpec{{Idx: rng.Intn(5), Applied: rng.Bool(), Kind: pickOne(rng, faultKinds)}, {Idx: rng.Intn(9), Applied: rng.Bool(), Kind: pickOne(rng, faultKinds)}}}
 				case f < 86:
 					st.Plan = &RoundPlan{Crash: &CrashSpec{Phase: "idx", Idx: rng.Intn(9), Applied: rng.Bool()}}
 				default:
